@@ -25,14 +25,19 @@ RULE = ('fitted GaussianMultivariate models of 2-6 columns x 40-150 training row
         'the training columns: none / exactly one / some; wrong-width arrays; duplicated labels; unfitted model; '
         'empty batch).  A case is distinct by (model digest, operation, container form, batch digest) and '
         'non-trivial when the container is not the training-order DataFrame or the batch has a far-out point')
-PARTIAL = ['"equals the MVN density": the MVN density/CDF are external symbols (scipy) in the theorems; the closed form '
-           'exp(-q/2)/sqrt((2pi)^d det) is the executable Cholesky model, proved positive whenever the factorisation '
-           'succeeds (mvn_pdf_pos) and equal to exp of the log form (mvn_pdf_eq_exp_log), compared with scipy on the real '
-           'scores every run; that Cholesky succeeds for every positive definite matrix is proved for d <= 2 only '
-           '(mvn_pdf_defined_partial)',
-           'cdf clauses (range, monotone) are proved GIVEN MVNCDFSpec; scipy computes the CDF by randomised quasi-Monte-'
-           'Carlo (noise ~1e-5), so the real values are only checked to 1e-3',
-           'floating point: theorems are over the reals / symbolic plans; binary64 effects are covered by the tie only']
+PARTIAL = ['"equals the MVN density / CDF": scipy.stats.multivariate_normal.pdf/cdf are external symbols (MVNPDF, MVNCDF) in '
+           'the theorems; that the code hands them the normal scores and the STORED correlation is what is proved/tied. '
+           'The closed form exp(-q/2)/sqrt((2pi)^d det) is the executable Cholesky model: proved positive whenever the '
+           'factorisation succeeds (mvn_pdf_pos), equal to exp of the log form (mvn_pdf_eq_exp_log), compared with the real '
+           'probability_density on the real scores every run (d <= 6, cond <= 1e9); that the factorisation succeeds for every '
+           'positive definite matrix is proved for d <= 2 only (mvn_pdf_defined_partial), and L L^T = Sigma is not proved',
+           'cdf_range / cdf_mono_coord are proved GIVEN MVNCDFSpec and monotone marginal CDFs (MonoExt); scipy computes the CDF '
+           'by randomised quasi-Monte-Carlo (noise ~1e-5), so the real values are only checked to 1e-3 on well-separated points',
+           'floating point: theorems are about symbolic plans / the reals; binary64 effects (e.g. the last-bit difference of a '
+           'GaussianKDE cdf evaluated alone vs in a batch) are covered by the tie only',
+           'a frame holding only SOME training columns is outside the property; modelled as found (exactly one column: scipy '
+           'broadcasts x - mean and returns the density at (z,...,z); otherwise ValueError) and tied, not flagged',
+           'an empty batch is outside the property (batches of size >= 1); modelled as found (pdf: empty result; cdf: ValueError)']
 ASSUMPTIONS = ['pandas label semantics: `name in frame` tests the column labels, frame[name] selects by label, '
                'Series.to_frame().T has the Series index as columns, DataFrame(arr, columns=c) labels positionally; '
                'validated by the plan tie every run',
@@ -146,6 +151,10 @@ def make_model(rng, nr, force=None):
         special, pool = 'none', ('gaussian', 'uniform')
     for j in range(d):
         fam = rng.choice(pool)
+        if j == 0 and special in ('copy', 'nearcopy'):
+            # the base column of a dependent pair: a family whose fit is affine-equivariant, so that the two score
+            # columns coincide (up to the noise) and the stored correlation is (near-)singular
+            fam = rng.choice(['gaussian', 'uniform', 'kde'] + (['gamma'] if special == 'nearcopy' else []))
         z = Z[:, j]
         if fam == 'gaussian':
             x = rng.choice([1e-3, 1.0, 250.0]) * z + rng.choice([0.0, -7.0, 1e4])
@@ -166,10 +175,10 @@ def make_model(rng, nr, force=None):
             fams[j] = 'gaussian'
         elif special == 'copy':
             cols[j] = cols[0] * 2.0 + 1.0
-            fams[j] = fams[0] if fams[0] in ('gaussian', 'uniform', 'kde') else 'gaussian'
+            fams[j] = fams[0]
         else:
-            cols[j] = cols[0] + 1e-6 * nr.normal(size=n) * np.std(cols[0])
-            fams[j] = fams[0] if fams[0] != 'beta' else 'gaussian'
+            cols[j] = cols[0] + rng.choice([1e-7, 1e-6, 1e-5]) * nr.normal(size=n) * np.std(cols[0])
+            fams[j] = fams[0]
         fams[j] = fams[j] + '*' + special
     train = np.column_stack(cols)
     df = pd.DataFrame(train, columns=labels)
@@ -189,6 +198,9 @@ def models_for(ctx, stream, count):
         m = make_model(rng, nr, forced[k] if k < len(forced) else None)
         out.append(m)
         ctx.count(f'model.d={m.d}')
+        if m.singular:
+            ctx.count('model.correlation-singular-for-scipy')
+        ctx.count('model.cond' + ('<=1e3' if m.cond <= 1e3 else '<=1e9' if m.cond <= 1e9 else '>1e9'))
         ctx.count('model.' + m.tag.split('special=')[1])
         ctx.count('model.labels=' + m.tag.split('labels=')[1].split()[0])
         for f in m.fams:
@@ -503,7 +515,7 @@ def tie_model(ctx, lean, m, rng, nr, tr, nbatch, deep=False):
             else:
                 ll, lp = np.array(r[1][0::2]), np.array(r[1][1::2])
                 q = np.abs(ll) + 1.0
-                tol = 1e-9 + 4e-15 * m.cond * q
+                tol = 1e-9 + 1e-15 * m.cond * q
                 for i in range(n):
                     if real[i] > 1e-290:
                         ok = abs(ll[i] - math.log(real[i])) <= tol[i] and abs(lp[i] - real[i]) <= 1e-8 * real[i] + 4 * tol[i] * real[i]
@@ -513,6 +525,16 @@ def tie_model(ctx, lean, m, rng, nr, tr, nbatch, deep=False):
                                        'real_logpdf': float(reallog[i]), 'lean_logpdf': float(ll[i]), 'lean_pdf': float(lp[i])})
         else:
             ctx.count('mvn.skipped[cond>1e9]')
+    if m.singular:
+        # the cdf of a model whose stored correlation scipy deems singular: always tied once
+        rows, _ = gen_rows(rng, nr, m, 2, 'jitter')
+        X = pd.DataFrame(rows, columns=m.labels)
+        real = call(lambda: m.model.cumulative_distribution(X))
+        ok, dd = cmp_res(real, lean_dens(lean, m, 'cdf', ('frame', m.labels, rows)), ('abs', EPS_CDF),
+                         {'model': m.tag, 'fams': m.fams, 'cond': m.cond, 'form': 'frame', 'singular': True})
+        tr.note(T[3], ok, dd)
+        ctx.count('cdf.singular-correlation.' + (real[0] if real[0] == 'ok' else real[1]))
+        ctx.case((m.id, 'cdf', 'singular', digest(rows)), nontrivial=True)
     malformed(ctx, lean, m, rng, nr, tr)
 
 
